@@ -127,6 +127,7 @@ namespace hv
         long long lift_id[4]{0, 0, 0, 0};                                               // slot -> node id of the lifted functions (vocab LiftQ<K>)
         long long cycle_off{0};                                                         // engine time of the cycle in progress (offset), for code that has no DateTime at hand
     };
+    std::string profiled_sites_json();      // site sweep: the candidate call sites of a profile run (mode_threads.cpp)
     extern thread_local Ctx *g_ctx;
     inline Ctx &ctx() { return *g_ctx; }
     extern Ctx g_default_ctx;
